@@ -6,6 +6,7 @@ package c17
 //                     requests of a HandoverGen behaviour, and after every reply observes what the step is
 //                     about: admin port, listening socket (new connections), an established proxied
 //                     connection, process alive / exit status.
+//   kind "adminbusy": as scripted, with an admin API client in the middle of a request when the hand-over begins.
 //   kind "realchild": a second real samaritan is started as the child of the first (the two environment
 //                     variables of consts), i.e. the child-side sequence of samaritan.go:110-132.
 // Only observations are reported; checks/c17.py compares them with the abstract state of Handover.tla.
@@ -94,6 +95,26 @@ func echoBackend() (int, func(), error) {
 		}
 	}()
 	return l.Addr().(*net.TCPAddr).Port, func() { l.Close() }, nil
+}
+
+// listening tells whether some socket LISTENs on 127.0.0.1:port, from /proc/net/tcp - without connecting.
+// (A probe connection to the admin port is not harmless: admin.Server.Stop passes a nil context to
+// http.Server.Shutdown, which is only dereferenced when a connection is not idle at that moment; a probe that the
+// server has not yet seen closing makes the stop-admin step panic.  That is probed on purpose by kind "adminbusy",
+// never by accident.)
+func listening(port int) bool {
+	b, err := os.ReadFile("/proc/net/tcp")
+	if err != nil {
+		return portUp(port)
+	}
+	want := fmt.Sprintf("0100007F:%04X", port)
+	for _, l := range strings.Split(string(b), "\n")[1:] {
+		f := strings.Fields(l)
+		if len(f) > 3 && f[1] == want && f[3] == "0A" {
+			return true
+		}
+	}
+	return false
 }
 
 func portUp(port int) bool {
@@ -278,7 +299,7 @@ static_services:
 	defer par.kill()
 	up := false
 	for i := 0; i < 100 && par.alive(); i++ {
-		if portUp(admin) && portUp(svc) {
+		if _, err := os.Stat(filepath.Join(dir, "parent.pid")); err == nil && listening(admin) && listening(svc) {
 			up = true
 			break
 		}
@@ -295,7 +316,7 @@ static_services:
 	}
 	defer est.Close()
 	observe := func(req, reply string) e2eObs {
-		o := e2eObs{Req: req, Reply: reply, AdminUp: portUp(admin), Accepting: newServed(svc), EstAlive: echoOK(est, "e"), Alive: par.alive()}
+		o := e2eObs{Req: req, Reply: reply, AdminUp: listening(admin), Accepting: newServed(svc), EstAlive: echoOK(est, "e"), Alive: par.alive()}
 		if !o.Alive {
 			o.Exit = par.exit
 		}
@@ -305,7 +326,18 @@ static_services:
 	pid := par.cmd.Process.Pid
 
 	switch in.Kind {
-	case "scripted":
+	case "scripted", "adminbusy":
+		if in.Kind == "adminbusy" {
+			// an admin API client is in the middle of a request when the hand-over begins
+			ac, err := net.DialTimeout("tcp", fmt.Sprintf("127.0.0.1:%d", admin), time.Second)
+			if err != nil {
+				out.Infra = "admin port: " + err.Error()
+				return
+			}
+			defer ac.Close()
+			ac.Write([]byte("GET /config HTTP/1.1\r\nHost: c17\r\n"))
+			time.Sleep(100 * time.Millisecond)
+		}
 		c, err := net.DialTimeout("unix", fmt.Sprintf("@sam_domain_socket_%d", pid), time.Second)
 		if err != nil {
 			out.Infra = "control socket: " + err.Error()
@@ -326,7 +358,7 @@ static_services:
 			// wait for the reply; a process that is dumping a fatal error (the dump of a 1 GB stack takes
 			// seconds) is recognised from its log and put out of its misery
 			rch := make(chan rdRes, 1)
-			go func() { rch <- readReply(uc, 3*time.Second) }()
+			go func() { rch <- readReply(uc, 6*time.Second) }()
 			name, crashed := "", false
 			tick := time.NewTicker(50 * time.Millisecond)
 		wait:
@@ -386,7 +418,7 @@ static_services:
 		}
 		out.ParentSteps = par.steps()
 		out.ChildAlive = child.alive()
-		out.NewServed = out.NewServed && newServed(svc) && portUp(admin)
+		out.NewServed = out.NewServed && newServed(svc) && listening(admin)
 		out.Crash = strings.TrimSpace(par.crashLines() + " " + child.crashLines())
 	}
 	return
